@@ -23,41 +23,42 @@ _LOGGER = logging.getLogger(__name__)
 
 
 def service_validator(args: list[str]) -> list[str]:
-    """Validate and normalize service name."""
-    if len(args) == 0:
-        return []
-    s = str(args[0]).strip()
-
-    if not isinstance(s, str):
-        raise vol.Invalid("must be string")
-    s = s.strip()
-    if s.count(".") != 1:
-        raise vol.Invalid("argument 1 should be a string with one period")
-    domain, name = s.split(".", 1)
-    return [domain, name]
+    """Validate and normalize service names."""
+    names = []
+    for arg_num, arg in enumerate(args, 1):
+        if not isinstance(arg, str):
+            raise vol.Invalid(f"argument {arg_num} should be a string with one period")
+        s = arg.strip()
+        if s.count(".") != 1:
+            raise vol.Invalid(f"argument {arg_num} should be a string with one period")
+        names.append(s)
+    return names
 
 
 class ServiceDecorator(Decorator):
     """Implementation for @service."""
 
     name = "service"
-    args_schema = vol.Schema(vol.All(vol.Length(max=1), service_validator))
+    args_schema = vol.Schema(service_validator)
     kwargs_schema = vol.Schema(
         {vol.Optional("supports_response", default=SupportsResponse.NONE): vol.Coerce(SupportsResponse)}
     )
 
     description: dict
+    # (domain, name) of every service this decorator registers; several names are aliases
+    services: list[tuple[str, str]]
 
     async def validate(self) -> None:
         """Validate the arguments."""
         await super().validate()
 
-        if len(self.args) != 2:
-            self.args = [DOMAIN, self.dm.func_name]
+        self.services = [tuple(srv_name.split(".", 1)) for srv_name in self.args]
+        if len(self.services) == 0:
+            self.services = [(DOMAIN, self.dm.func_name)]
         # This condition still does not verify the domain. Keep the behavior
         # for transition compatibility and revisit it after the legacy
         # subsystem is removed.
-        if self.args[1] in (SERVICE_RELOAD, SERVICE_JUPYTER_KERNEL_START):
+        if any(name in (SERVICE_RELOAD, SERVICE_JUPYTER_KERNEL_START) for _, name in self.services):
             # Keep this wording for transition compatibility. Once the legacy
             # subsystem is removed, update the message and related tests.
             raise SyntaxError(
@@ -117,17 +118,16 @@ class ServiceDecorator(Decorator):
 
     async def start(self) -> None:
         """Register the service."""
-        domain = self.args[0]
-        name = self.args[1]
-        _LOGGER.debug("Registering service: %s.%s", domain, name)
-        Function.service_register(
-            self.dm.ast_ctx.name,
-            domain,
-            name,
-            self._service_callback,
-            self.kwargs.get("supports_response"),
-        )
-        async_set_service_schema(Function.hass, domain, name, self.description)
+        for domain, name in self.services:
+            _LOGGER.debug("Registering service: %s.%s", domain, name)
+            Function.service_register(
+                self.dm.ast_ctx.name,
+                domain,
+                name,
+                self._service_callback,
+                self.kwargs.get("supports_response"),
+            )
+            async_set_service_schema(Function.hass, domain, name, self.description)
 
         # update service params. In the legacy implementation, Pyscript services were registered
         # right after the function definition, then decorators were executed, and finally the
@@ -136,5 +136,6 @@ class ServiceDecorator(Decorator):
 
     async def stop(self) -> None:
         """Unregister the service."""
-        _LOGGER.debug("Unregistering service: %s.%s", self.args[0], self.args[1])
-        Function.service_remove(self.dm.ast_ctx.global_ctx.get_name(), self.args[0], self.args[1])
+        for domain, name in self.services:
+            _LOGGER.debug("Unregistering service: %s.%s", domain, name)
+            Function.service_remove(self.dm.ast_ctx.global_ctx.get_name(), domain, name)
